@@ -81,7 +81,7 @@ structure TxOut where
   res : Res
   db : Db
   fired : List Fired
-  preLog : List PreCall
+  preLog : List LogItem
   preRan : List Nat
   runs : Nat
   ctx : Ctx
@@ -89,12 +89,12 @@ structure TxOut where
   inexact : Bool
   deriving Repr
 
-def commit (env : Env) (a : Attempt) (runs : Nat) (preLog : List PreCall) (preRan : List Nat) (raised : List Err) : TxOut :=
+def commit (env : Env) (a : Attempt) (runs : Nat) (preLog : List LogItem) (preRan : List Nat) (raised : List Err) : TxOut :=
   { res := .ok, db := a.st.db, fired := a.st.queue.flatMap (commitItem env a.st.ctx),
     preLog := preLog ++ a.st.preLog, preRan := preRan ++ a.preRan, runs := runs, ctx := a.st.ctx,
     raised := raised ++ a.st.raised, inexact := a.st.inexact }
 
-def rollback (db : Db) (a : Attempt) (e : Err) (runs : Nat) (preLog : List PreCall) (preRan : List Nat) (raised : List Err) : TxOut :=
+def rollback (db : Db) (a : Attempt) (e : Err) (runs : Nat) (preLog : List LogItem) (preRan : List Nat) (raised : List Err) : TxOut :=
   { res := .err e, db := db, fired := [], preLog := preLog ++ a.st.preLog, preRan := preRan ++ a.preRan,
     runs := runs, ctx := a.st.ctx, raised := raised ++ a.st.raised, inexact := false }
 
